@@ -108,9 +108,9 @@ Definition first_reply (acts : list hact) (code : Z) : option (list byte) :=
 Lemma tans_set_req c n id p : tans (set_req c n id) p = tans c p.
 Proof. reflexivity. Qed.
 
-Lemma tans_accepts c p : cclosed c = false -> (cdg c = true \/ cact c = false) -> (0 <= tans c p)%Z.
+Lemma tans_accepts c p : cclosed c = false -> cgone c = false -> (cdg c = true \/ cact c = false) -> (0 <= tans c p)%Z.
 Proof.
-  intros Hc Ht. unfold tans. rewrite Hc. destruct (cdg c); [lia|].
+  intros Hc Hg Ht. unfold tans. rewrite Hc, Hg. cbn [orb]. destruct (cdg c); [lia|].
   destruct Ht as [|Ht]; [discriminate|]. rewrite Ht. lia.
 Qed.
 
@@ -126,7 +126,7 @@ Proof. intros H. unfold sarmed, view_armed, sview. cbn [v_ctx]. rewrite H. cbn. 
    handler are refused; the context is closed afterwards and the log has exactly one new entry. *)
 Lemma spec_request_answered_once s c m acts code :
   s_own s = 1 -> s_att s = true -> s_ptr s = true -> s_max s = cidl c ->
-  cclosed c = false -> (cdg c = true \/ cact c = false) ->
+  cclosed c = false -> cgone c = false -> (cdg c = true \/ cact c = false) ->
   0 < cidl c -> cidl c <= length m -> all_zero (firstn (cidl c) m) = false ->
   forallb is_reply_act acts = true ->
   let id := firstn (cidl c) m in
@@ -138,7 +138,7 @@ Lemma spec_request_answered_once s c m acts code :
        [mark id ++ paybytes p0], false) /\
     s_cur s' = None /\ ssame s s' /\ s_log s' = s_log s ++ [mkent (s_step s) (mark id) p0].
 Proof.
-  intros Hown Hatt Hptr Hmax Hcl Hacc Hpos Hlen Hnz Hall id p0.
+  intros Hown Hatt Hptr Hmax Hcl Hgn Hacc Hpos Hlen Hnz Hall id p0.
   assert (Hidl : length id = s_max s) by (unfold id; rewrite firstn_length; lia).
   unfold dispatch_request. rewrite Hnz. fold id. unfold prim at 1.
   destruct (s_arm s [tans (set_req c (s_step s) id) None] id Hown Hidl ltac:(lia)) as (s1 & -> & Hs1 & Hst1 & Hc1 & Hl1).
@@ -150,14 +150,14 @@ Proof.
   - (* the handler did not reply: generic answer *)
     cbn [run_acts]. rewrite (sarmed_spec s1 Hown1), Hc1. unfold prim. rewrite tans_set_req.
     destruct (s_reply_open s1 (tans c (Some (answer_hdr code))) (Some (answer_hdr code)) _ Hown1 Hatt1 Hptr1 Hc1
-                           (tans_accepts c _ Hcl Hacc)) as (s2 & -> & Hs2 & _ & Hc2 & Hl2).
+                           (tans_accepts c _ Hcl Hgn Hacc)) as (s2 & -> & Hs2 & _ & Hc2 & Hl2).
     cbn [ocalls oret is_fault orb qid qser app]. rewrite call_wire_one by (apply tans_accepts; assumption).
     exists s2. split; [reflexivity|]. split; [assumption|]. split; [eapply ssame_trans; eauto|].
     rewrite Hl2, Hl1. reflexivity.
   - cbn [forallb] in Hall. apply andb_true_iff in Hall. destruct Hall as [Ha Hall].
     destruct a as [p|]; [|discriminate].
     cbn [run_acts act_op fst snd]. unfold prim at 1. rewrite tans_set_req.
-    destruct (s_reply_open s1 (tans c p) p _ Hown1 Hatt1 Hptr1 Hc1 (tans_accepts c _ Hcl Hacc))
+    destruct (s_reply_open s1 (tans c p) p _ Hown1 Hatt1 Hptr1 Hc1 (tans_accepts c _ Hcl Hgn Hacc))
       as (s2 & -> & Hs2 & _ & Hc2 & Hl2).
     assert (Hown2 : s_own s2 = 1) by (destruct Hs2 as (A & _); congruence).
     destruct (run_replies_closed (set_req c (s_step s) id) rest s2 Hown2 Hc2 Hall) as (s3 & -> & Hs3 & Hc3 & Hl3).
